@@ -4,7 +4,7 @@ Copies a confirmed seeded change into /verif/seeded/<id>/ with a meta.json descr
 import json, os, shutil, sys
 wt, x, sid, caught = sys.argv[1:5]
 note = sys.argv[5] if len(sys.argv) > 5 else ''
-src = os.path.join(wt, 'SEEDED', x)
+src = os.path.join(wt, os.environ.get('SD', 'SEEDED'), x)
 dst = os.path.join(os.path.dirname(os.path.dirname(os.path.abspath(__file__))), 'seeded', sid)
 os.makedirs(dst, exist_ok=True)
 shutil.copy(os.path.join(src, 'patch.diff'), dst)
